@@ -68,6 +68,9 @@ pub enum Op {
     Query(usize, i64, i32),
     Thread(usize, i64),
     Swap(usize, usize),
+    /// `pool[dst].clone_from(&pool[src])`: 0 directly, 1 through `Option::clone_from`,
+    /// 2 through `Vec::clone_from` (both forward to the element)
+    CloneFrom(usize, usize, u8),
 }
 
 /// Decode a program from raw bytes (fuzz target): 4 bytes per op.
@@ -89,7 +92,8 @@ pub fn decode(data: &[u8]) -> Vec<Op> {
                 };
                 Op::New(a, p)
             }
-            3 | 4 | 5 => Op::Clone(a, b),
+            3 | 4 => Op::Clone(a, b),
+            5 => Op::CloneFrom(a, b, c[3] % 3),
             6 | 7 => Op::Drop(a),
             8 => Op::ThroughZoned(a, v),
             9 => Op::ThroughAmbiguous(a, v),
@@ -301,6 +305,46 @@ pub fn run(ops: &[Op], blocks: BlockCounter) -> Result<Stats, String> {
             }
             Op::Swap(i, j) => {
                 pool.swap(i, j);
+            }
+            Op::CloneFrom(src, dst, via) => {
+                if src == dst {
+                    continue;
+                }
+                let Some((p, g)) = pool[src].as_ref().map(|h| (h.1, h.2)) else { continue };
+                let Some((mut d, dp, dg)) = pool[dst].take() else { continue };
+                let dst_was_last = group_size(&pool, dg) == 0 && dg != g;
+                let b0 = count(blocks);
+                {
+                    let s = &pool[src].as_ref().unwrap().0;
+                    match via {
+                        0 => d.clone_from(s),
+                        1 => {
+                            let mut od = Some(d);
+                            od.clone_from(&Some(s.clone()));
+                            d = od.unwrap();
+                        }
+                        _ => {
+                            let mut vd = vec![d];
+                            vd.clone_from(&vec![s.clone()]);
+                            d = vd.pop().unwrap();
+                        }
+                    }
+                    if &d != s || s != &d {
+                        return Err(format!("eq-clone: step {step}: after clone_from a handle of {p:?} is not equal to its source"));
+                    }
+                }
+                if let (Some(b0), Some(b1)) = (b0, count(blocks)) {
+                    // the only heap effect allowed: the destination's old zone is freed if this
+                    // was its last handle
+                    if !(dp.heap_backed() && dst_was_last) && b1 != b0 {
+                        return Err(format!("alloc-model-clone: step {step}: clone_from({p:?}) into a handle of {dp:?} (not its last) changed live heap blocks by {}", b1 - b0));
+                    }
+                    if dp.heap_backed() && dst_was_last && b1 >= b0 {
+                        return Err(format!("alloc-model-last-drop: step {step}: clone_from over the last handle of {dp:?} freed nothing"));
+                    }
+                    stats.heap_clone_drop_checks += 1;
+                }
+                pool[dst] = Some((d, p, g));
             }
         }
     }
